@@ -1,6 +1,6 @@
 (* the property-level statements of layer L2 and their proofs from the layer's theorems (the Props*.v files only [exact] these) *)
 From stdpp Require Import list numbers option.
-From L2 Require Import Model Base Own Jobs Shape DwInv Pool OpShape Fut Sig Task TaskInv Wake WakeInv Term Complete Susp Zero ZeroInv ZeroTerm Facts.
+From L2 Require Import Model Base Own Jobs Shape DwInv Pool OpShape Fut Sig Task TaskInv Wake WakeInv Term Complete Susp Zero ZeroInv ZeroTerm Facts Waiter WaiterTerm.
 
 (* ---------- C01 ---------- *)
 Definition C01_full : Prop :=
@@ -210,3 +210,61 @@ Proof.
   destruct (C06_terminal_main T HA _ _ _ _ _ Hn Hr Ht Hf) as (H1 & H2 & _ & _ & H5).
   split; [done|]. split; [done|]. split; [done|]. by eapply C07_complete_main.
 Qed.
+
+(* ---------- C04 for one queue with futures: sync returns (the waiter's loop of sync_background, finding F6) ----------
+   [claim_cond] (Waiter.v): claim_pending_queue accepts Idle, Pending and WaitingForPoll, refuses WaitingForWake, and a WakeQueue
+   wake-up that leaves the queue claimable goes on to reschedule_queue (which kicks the waiters). *)
+(* the invariant: a waiter whose job has not run and whose `rescheduled` flag is clear is going to be kicked whenever the queue can
+   be claimed: a reschedule_queue is in flight, or a wake-up that reaches WakeQueue is registered / in flight (Waiter.Inv_K) *)
+Definition C04_waiter_invariant : Prop :=
+  forall (T : ftables), all_cond T -> claim_cond T ->
+  forall scripts npool nev tr s, run T (init scripts npool nev) tr = Some s -> Inv_K T s.
+Lemma C04_waiter_invariant_main : C04_waiter_invariant.
+Proof. intros T HA HC scripts npool nev tr s Hr. apply (i3_k _ _ (reachable_all3 T HA HC _ _ _ _ _ Hr)). Qed.
+(* in a terminal state with all events fired every actor is done or is a task parked awaiting a SchedulerFuture: nobody is left
+   inside sync (sync_immediate, sync_drain, sync_background) - any program, ANY number of pool runners, zero included *)
+Definition C04_sync_returns_full : Prop :=
+  forall (T : ftables), all_cond T -> claim_cond T ->
+  forall scripts npool nev tr s, run T (init scripts npool nev) tr = Some s -> terminal T s -> all_fired s ->
+  forall c st, stacks s !! c = Some st -> done_actor st \/ exists f rest, st = FPark f :: rest.
+Lemma C04_sync_returns_main : C04_sync_returns_full.
+Proof.
+  intros T HA HC scripts npool nev tr s Hr Ht Hf c st Hc.
+  destruct (C04_sync_returns T HA HC _ _ _ _ _ Hr Ht Hf c st Hc) as [?|[?|?]]; [left; by left|left; by right|by right].
+Qed.
+(* the same WITHOUT claim_cond: refuted (Refute.C04_needs_waiter_takeover_refuted: the claim table from before the repair of F6) *)
+Definition C04_sync_returns_any_claim_table : Prop :=
+  forall (T : ftables), all_cond T ->
+  forall scripts npool nev tr s, run T (init scripts npool nev) tr = Some s -> terminal T s -> all_fired s ->
+  forall c st, stacks s !! c = Some st -> st = [FTop []] \/ st = [FPIdle] \/ exists f rest, st = FPark f :: rest.
+(* the state form of finding F6: no caller is left waiting in sync_background - in particular not while the queue is in
+   WaitingForPoll f with f's future dropped and the queue woken (it is in the schedule, nobody takes it) *)
+Definition C04_waiter_takes_over : Prop :=
+  forall (T : ftables), all_cond T -> claim_cond T ->
+  forall scripts npool nev tr s, run T (init scripts npool nev) tr = Some s -> terminal T s -> all_fired s ->
+  forall c rest, stacks s !! c = Some (FSBwait :: rest) -> False.
+Lemma C04_waiter_takes_over_main : C04_waiter_takes_over.
+Proof.
+  intros T HA HC scripts npool nev tr s Hr Ht Hf c rest Hc.
+  destruct (C04_sync_returns T HA HC _ _ _ _ _ Hr Ht Hf c _ Hc) as [?|[?|(f & r & ?)]]; done.
+Qed.
+(* a caller that never awaits a future (desync, sync, SchedulerFuture::sync, poll a future n times and drop it, detach, fire)
+   finishes its script: any position, any other callers, any pool size *)
+Definition noawait (sc : list cop) : Prop :=
+  Forall (fun o => match o with OFuture _ UAwait | OSuspend _ UAwait => False | _ => True end) sc.
+Lemma noawait_b sc : noawait sc -> forallb noaw_op sc = true.
+Proof. unfold noawait. induction 1 as [|o r Ho _ IH]; [done|]. cbn. rewrite IH, andb_true_r. destruct o as [|? u|? u| |]; try done; by destruct u. Qed.
+Definition C04_noawait_caller_finishes : Prop :=
+  forall (T : ftables), all_cond T -> claim_cond T ->
+  forall scripts npool nev tr s c sc, scripts !! c = Some sc -> noawait sc ->
+  run T (init scripts npool nev) tr = Some s -> terminal T s -> all_fired s -> stacks s !! c = Some [FTop []].
+Lemma C04_noawait_caller_finishes_main : C04_noawait_caller_finishes.
+Proof. intros T HA HC scripts npool nev tr s c sc Hsc Hn. apply (noawait_caller_finishes T HA HC scripts npool nev tr s c sc); [done|by apply noawait_b]. Qed.
+(* zero pool runners (extends C06_zero_pool_full to sync and poll-and-drop, for a caller that does not ALSO await futures): caller 0
+   runs desync / sync / future operations that it detaches, syncs or polls n times and drops; the other callers are arbitrary *)
+Definition C06_zero_pool_sync_full : Prop :=
+  forall (T : ftables), all_cond T -> claim_cond T ->
+  forall sc0 others nev tr s, noawait sc0 ->
+  run T (init (sc0 :: others) 0 nev) tr = Some s -> terminal T s -> all_fired s -> stacks s !! 0 = Some [FTop []].
+Lemma C06_zero_pool_sync_main : C06_zero_pool_sync_full.
+Proof. intros T HA HC sc0 others nev tr s Hn. by apply (C04_noawait_caller_finishes_main T HA HC (sc0 :: others) 0 nev tr s 0 sc0). Qed.
